@@ -216,7 +216,7 @@ def final_checks(run, clients, healed_for, horizon=HORIZON):
                 c.inc("guaranteed_delivered")
             elif alive and healed_for is None:
                 # horizon reached without quiescence, still undelivered
-                rep("C05", "client-reads-one-datagram-per-update-livelock" if receiver_livelock(run, rec, clients) else classify_stuck(run, rec), "guaranteed message %r (%d bytes, api %s, from %s) undelivered %.0fs after the network healed; %s" % (
+                rep("C05", stuck_or_livelock(run, rec, clients), "guaranteed message %r (%d bytes, api %s, from %s) undelivered %.0fs after the network healed; %s" % (
                     pid, rec["len"], rec["api"], rec["side"], horizon, where_stuck(run, rec)), {"len": rec["len"], "api": rec["api"], "mtu": run.mtu})
             elif alive:
                 rep("C05", classify_stuck(run, rec), "guaranteed message %r (%d bytes, api %s, from %s) never delivered although the sender is quiescent; %s" % (
@@ -297,6 +297,13 @@ def receiver_livelock(run, rec, clients):
         return False
     half = [a for a in tr["acked"] if a[0] >= tr["acked"][-1][0] / 2]
     return len(half) >= 2 and half[0][1:] == half[-1][1:]
+
+
+def stuck_or_livelock(run, rec, clients):
+    mech = classify_stuck(run, rec)
+    if mech != "reassembly-context-expired-while-sender-retries" and receiver_livelock(run, rec, clients):
+        return "client-reads-one-datagram-per-update-livelock"
+    return mech
 
 
 def where_stuck(run, rec):
